@@ -17,6 +17,7 @@ from fractions import Fraction
 import numpy as np
 
 from harness import common as C
+from harness import probes
 
 PROP = "C19"
 TARGETS = ["IbicusModel.Props.C19"]
@@ -71,22 +72,31 @@ def years_of(time):
     return [as_date(t).year for t in time]
 
 
-def check_calendar(time, problems_all, res):
-    """ibicus.utils.day_of_year / month / season / year on this time axis against the independent calendar"""
+def check_calendar(time, problems_all, res, kind="date"):
+    """ibicus.utils.day_of_year / month / season / year on this time axis, handed over in the encoding `kind`
+    (probes.present: date, datetime, datetime64[D|h|s|ns] stamped 13:00, a type without timetuple), against the
+    independent calendar of the python dates `time`"""
     from ibicus import utils
 
     res.extra["calendar_axes_checked"] = res.extra.get("calendar_axes_checked", 0) + 1
+    shown = time if kind == "date" else probes.present(time, kind)
+    real = {}
     with warnings.catch_warnings():
         warnings.simplefilter("ignore")
-        real = {"day": [int(v) for v in utils.day_of_year(time)], "month": [int(v) for v in utils.month(time)],
-                "season": [str(v) for v in utils.season(time)], "year": [int(v) for v in utils.year(time)]}
-    for scope in ("day", "month", "season", "year"):
+        for scope, f in (("day", utils.day_of_year), ("month", utils.month), ("season", utils.season), ("year", utils.year)):
+            try:
+                real[scope] = [str(v) if scope == "season" else int(v) for v in f(shown)]
+            except Exception as e:  # noqa: BLE001
+                problems_all.append(("time_groups", f"utils.{'day_of_year' if scope == 'day' else scope} raises {type(e).__name__} on a supported time encoding ({kind})",
+                                     {"what": "time_groups", "scope": scope, "date": str(as_date(time[0])), "encoding": kind}, 1))
+    for scope in real:
         want = years_of(time) if scope == "year" else groups_of(time, scope)[0]
         if real[scope] != want:
             k = next(i for i in range(len(want)) if real[scope][i] != want[i])
-            problems_all.append(("time_groups", f"utils.{'day_of_year' if scope == 'day' else scope}({as_date(time[k])}) = {real[scope][k]!r}, "
+            problems_all.append(("time_groups", f"utils.{'day_of_year' if scope == 'day' else scope}({shown[k]!r}) = {real[scope][k]!r}, "
                                  f"the calendar says {want[k]!r}: the per-{scope} threshold scope / annual split is evaluated on the wrong groups",
-                                 {"what": "time_groups", "scope": scope, "date": str(as_date(time[k])), "ibicus": real[scope][k], "calendar": want[k]}, 1))
+                                 {"what": "time_groups", "scope": scope, "date": str(as_date(time[k])), "encoding": kind, "position": k,
+                                  "ibicus": real[scope][k], "calendar": want[k]}, 1))
 
 
 def enc_thr(loc, v):
@@ -119,25 +129,54 @@ def real_spec(scope, loc, value):
 
 
 # ------------------------------------------------------------------ case generation
+ORDERS = ["sorted"] * 9 + ["shuffled", "shuffled", "descending", "descending", "year-blocks", "year-blocks", "two-runs", "two-runs", "rotated"]
+
+
+def reorder(rng, dates, order):
+    """the same calendar days in another STORAGE order (nothing in the property depends on chronological storage)"""
+    dates = list(dates)
+    if order == "shuffled":
+        rng.shuffle(dates)
+    elif order == "descending":
+        dates.reverse()
+    elif order == "year-blocks":  # yearly blocks concatenated out of order (2000, 2002, 2001)
+        ys = sorted({d.year for d in dates})
+        perm = ys[:]
+        rng.shuffle(perm)
+        if perm == ys and len(ys) > 1:
+            perm = ys[1:] + ys[:1]
+        dates = [d for y in perm for d in dates if d.year == y]
+    elif order == "two-runs" and len(dates) >= 2:  # two runs over the same period concatenated
+        h = dates[: len(dates) // 2]
+        dates = h + h + ([dates[-1]] if len(dates) % 2 else [])
+    elif order == "rotated" and len(dates) >= 2:
+        k = rng.randint(1, len(dates) - 1)
+        dates = dates[k:] + dates[:k]
+    return dates
+
+
 def gen_time(rng, tier):
-    kind = rng.choice(["one", "tiny", "tiny", "small", "small", "small", "year", "multi"])
+    kind = rng.choice(["one", "tiny", "tiny", "small", "small", "small", "sparse", "sparse", "year", "multi"])
+    step = 1
     if kind == "one":
         T = 1
     elif kind == "tiny":
         T = rng.randint(2, 12)
+        step = rng.choice([1, 1, 1, 1, 2, 7])
     elif kind == "small":
         T = rng.randint(13, 70)
+        step = rng.choice([1, 1, 1, 1, 2, 7])
+    elif kind == "sparse":  # few steps over several years
+        T = rng.randint(4, 40)
+        step = rng.randint(40, 200)
     elif kind == "year":
         T = rng.randint(300, 420)
     else:
         T = rng.randint(421, 800)
     start = datetime.date(rng.randint(1960, 2060), 1, 1) + datetime.timedelta(days=rng.randint(0, 365))
-    step = rng.choice([1, 1, 1, 1, 2, 7]) if kind in ("tiny", "small") else 1
     dates = [start + datetime.timedelta(days=k * step) for k in range(T)]
-    order = "sorted"
-    if rng.random() < 0.15:
-        rng.shuffle(dates)
-        order = "shuffled"
+    order = rng.choice(ORDERS)
+    dates = reorder(rng, dates, order)
     return kind, order, np.array(dates, dtype=object)
 
 
@@ -182,6 +221,7 @@ def gen_case(rng, tier):
     I, J = rng.choice(SHAPES)
     tkind, order, time = gen_time(rng, tier)
     T = time.size
+    time_kind = probes.pick_kind(rng)
     style, vals, x = gen_data(rng, T, I, J)
     ty, loc, scope = rng.choice(TYPES), rng.choice(["global", "local"]), rng.choice(SCOPES)
     pool = sorted(set(vals))
@@ -240,7 +280,8 @@ def gen_case(rng, tier):
     else:
         time_none = rng.random() < 0.5
     minlen = rng.choice([0, 0, 0, 1, 2, 3, 5])
-    return dict(I=I, J=J, T=T, tkind=tkind, order=order, time=time, style=style, vals=vals, x=x, ty=ty, loc=loc, scope=scope,
+    return dict(I=I, J=J, T=T, tkind=tkind, order=order, time=time, time_kind=time_kind, time_lib=probes.present(time, time_kind),
+                style=style, vals=vals, x=x, ty=ty, loc=loc, scope=scope,
                 v0=v0, v1=v1, codes=codes, keys_real=keys_real, code_of=code_of, time_none=time_none, expect_error=expect_error,
                 minlen=minlen, force=force)
 
@@ -269,21 +310,24 @@ def gen_big_case(data_seed, kind):
     two = hi if ty == "outside" else None  # outside [hi, hi]: everything but the ties with hi
     def spec(v):
         return v if scope == "overall" else {k: v for k in range(1, 13)}
-    return dict(I=I, J=J, T=T, tkind="big-" + kind, order="sorted", time=time, style="nonneg" if nonneg else "dyadic", vals=vals, x=x,
+    tk = rng.choice(["date", "M8D", "M8h"])
+    return dict(I=I, J=J, T=T, tkind="big-" + kind, order="sorted", time=time, time_kind=tk, time_lib=probes.present(time, tk), style="nonneg" if nonneg else "dyadic", vals=vals, x=x,
                 ty=ty, loc="global", scope=scope, v0=spec(one), v1=None if two is None else spec(two), codes=codes,
                 keys_real=keys_real, code_of=lambda k: int(k), time_none=False, expect_error=None, minlen=0, force=None,
                 big=kind, data_seed=data_seed)
 
 
 def describe(case, with_data=True):
-    d = {k: case[k] for k in ("I", "J", "T", "tkind", "order", "style", "ty", "loc", "scope", "time_none", "expect_error", "minlen")}
+    d = {k: case[k] for k in ("I", "J", "T", "tkind", "order", "time_kind", "style", "ty", "loc", "scope", "time_none", "expect_error", "minlen")}
+    if case.get("nonfinite"):
+        d["nonfinite"] = case["nonfinite"]
     d["time_first"] = str(case["time"][0])
     if case.get("big"):
         d["big"], d["data_seed"] = case["big"], case["data_seed"]
     d["threshold_value"] = enc_spec(case["scope"], case["loc"], case["v0"], case["code_of"]) + (
         "" if case["v1"] is None else " , " + enc_spec(case["scope"], case["loc"], case["v1"], case["code_of"]))
     if with_data and case["T"] * case["I"] * case["J"] <= 120:
-        d["data"] = C.rlist(case["vals"])
+        d["data"] = ",".join(C.rat(v) if isinstance(v, Fraction) else str(v) for v in case["vals"])
         d["time"] = [str(t) for t in case["time"]]
     return d
 
@@ -333,7 +377,7 @@ def run_real(case, m):
     """returns (fields: {name: value | 'error <Exc>'}, problems: [str]) ; problems are violations of dataset_unchanged"""
     from scipy.ndimage import label
 
-    x, time = case["x"], case["time"]
+    x, time = case["x"], case["time_lib"]
     tm = None if case["time_none"] else time
     snap = x.tobytes()
     out, problems = {}, []
@@ -407,9 +451,16 @@ def oracle(case, out):
         bad.append(("accumulative_filter", "filter_threshold_exceedances is not (value where the condition is met, 0 elsewhere)"))
     if not np.allclose(out["prob"], ref.mean(axis=0), rtol=0, atol=1e-12):
         bad.append(("probability_mean", "exceedance probability is not the per-location mean of the instances"))
-    yrs = sorted(set(years_of(case["time"])))
+    yarr = np.array(years_of(case["time"]))
+    yrs = sorted(set(yarr.tolist()))
     if out["annual"].shape != (len(yrs), I, J) or not np.array_equal(out["annual"].sum(axis=0), ref.sum(axis=0)):
         bad.append(("annual_counts_conserve", f"annual counts do not sum to the number of instances ({out['annual'].sum()} vs {n}, {len(yrs)} years)"))
+    else:
+        for r, y in enumerate(yrs):  # each entry = the instances among exactly that year's time steps, wherever they are stored
+            if not np.array_equal(out["annual"][r], ref[yarr == y].sum(axis=0)):
+                bad.append(("annual_count_def", f"annual count of {y} is {out['annual'][r].ravel()[:3].tolist()}, the year's time steps hold "
+                            f"{ref[yarr == y].sum(axis=0).ravel()[:3].tolist()} instances (storage order of the years: {list(dict.fromkeys(yarr.tolist()))[:6]})"))
+                break
     s0 = out["spells0"]
     if int(s0.sum()) != n or (s0 <= 0).any():
         bad.append(("spell_lengths_conserve", f"spell lengths (minimum length 0) sum to {int(s0.sum())}, instances {n}; min {s0.min() if s0.size else None}"))
@@ -426,18 +477,27 @@ def oracle(case, out):
         bad.append(("label_law", "scipy.ndimage.label does not satisfy the labelling law assumed by clusters_conserve"))
     if c.size != k:
         bad.append(("clusters_rows", f"cluster table has {c.size} rows, labelling has {k} clusters"))
-    tot = x.sum(axis=0)
+    with np.errstate(all="ignore"):
+        tot = x.sum(axis=0)
     amount = np.where(ref == 1, x, 0.0).sum(axis=0)
     pct = out["pct"]
-    if (x >= 0).all():
-        ok = tot > 0
+    fin = np.isfinite(x).all(axis=0)  # the total (denominator of the percentage) runs over ALL steps: claimed for finite series only
+    if (x[:, fin] >= 0).all():
+        ok = (tot > 0) & fin
         if (pct[ok] < -1e-9).any() or (pct[ok] > 100 + 1e-9).any():
             bad.append(("accumulative_percent_range", f"percent of total amount outside [0,100]: {pct[ok].tolist()[:4]}"))
-    okp = tot != 0
+    okp = (tot != 0) & fin
     if not np.allclose(pct[okp], 100 * amount[okp] / tot[okp], rtol=1e-12, atol=1e-9):
         bad.append(("accumulative_percent", "percent of total amount is not 100 * amount over the exceeding steps / total"))
-    if not np.allclose(out["annualv"].sum(axis=0), amount, rtol=1e-12, atol=1e-9):
-        bad.append(("accumulative_annual", "annual values do not sum to the amount over the exceeding steps"))
+    if out["annualv"].shape != (len(yrs), I, J) or not np.allclose(out["annualv"].sum(axis=0), amount, rtol=1e-12, atol=1e-9):
+        bad.append(("accumulative_annual", f"annual values do not sum to the amount over the exceeding steps ({out['annualv'].sum(axis=0).ravel()[:3].tolist()} vs {amount.ravel()[:3].tolist()})"))
+    else:
+        kept = np.where(ref == 1, x, 0.0)
+        for r, y in enumerate(yrs):
+            if not np.allclose(out["annualv"][r], kept[yarr == y].sum(axis=0), rtol=1e-12, atol=1e-9):
+                bad.append(("accumulative_annual", f"annual value of {y} is {out['annualv'][r].ravel()[:3].tolist()}, the amount over the year's exceeding steps is "
+                            f"{kept[yarr == y].sum(axis=0).ravel()[:3].tolist()} (storage order of the years: {list(dict.fromkeys(yarr.tolist()))[:6]})"))
+                break
     cnt = ref.sum(axis=0)
     ii = out["intensity"]
     if not np.allclose(ii[cnt > 0], amount[cnt > 0] / cnt[cnt > 0], rtol=1e-12, atol=1e-9) or np.isfinite(ii[cnt == 0]).any():
@@ -553,7 +613,8 @@ def gen_qcase(rng, tier):
                 q0 = q1 - Fraction(1, 8)
         q0, q1 = min(q0, q1), max(q0, q1)
     keys_real, codes = groups_of(time, scope)
-    return dict(I=I, J=J, T=T, time=time, vals=vals, x=x, ty=ty, loc=loc, scope=scope, q0=q0, q1=q1, dyadic=dy,
+    time_kind = probes.pick_kind(rng)
+    return dict(I=I, J=J, T=T, time=time, time_kind=time_kind, time_lib=probes.present(time, time_kind), vals=vals, x=x, ty=ty, loc=loc, scope=scope, q0=q0, q1=q1, dyadic=dy,
                 keys_real=keys_real, codes=codes, tkind=tkind, order=order)
 
 
@@ -561,7 +622,7 @@ def run_qcase(qc, res):
     """real from_quantile -> thresholds + instance counts per sample; returns (driver line, expected thresholds text | None, problems)"""
     from ibicus.evaluate.metrics import ThresholdMetric
 
-    x, time, ty, scope, loc = qc["x"], qc["time"], qc["ty"], qc["scope"], qc["loc"]
+    x, time, ty, scope, loc = qc["x"], qc["time_lib"], qc["ty"], qc["scope"], qc["loc"]
     two = ty in ("between", "outside")
     qarg = [float(qc["q0"]), float(qc["q1"])] if two else float(qc["q0"])
     problems = []
@@ -617,7 +678,7 @@ def run_qcase(qc, res):
 
 
 def describe_q(qc):
-    d = {k: qc[k] for k in ("I", "J", "T", "ty", "loc", "scope", "tkind", "order")}
+    d = {k: qc[k] for k in ("I", "J", "T", "ty", "loc", "scope", "tkind", "order", "time_kind")}
     d["q"] = [str(qc["q0"]), str(qc["q1"])]
     d["time_first"] = str(qc["time"][0])
     d["kind"] = "from_quantile"
@@ -646,6 +707,7 @@ def run(tier, res, force_search=False):
     res.assumptions = ["well-formed requests: 3-d float data (T >= 1), thresholds of the type/locality/scope the metric declares, time of length T",
                        "values are dyadic rationals so that float sums/comparisons are exact; ratios (probability, percent, intensity, extent) within 1e-9*(1+scale)",
                        "percent in [0,100] is claimed for non-negative data with a positive total; intensity / percent are NaN/inf (model: undefined) when the denominator is 0",
+                       "non-finite values: only at time steps that do not meet the condition (amounts are over the instances only); the percentage's total runs over all steps, so it is judged on finite series only",
                        "quantile frequencies are claimed for tie-free samples; for non-dyadic q the float (n-1)*q may fall on the other side of an integer (accepted, counted)"]
 
     lean_ok = C.lean_phase(res, PROP, GEN, TARGETS)
@@ -661,7 +723,7 @@ def run(tier, res, force_search=False):
     # ---- every public method on random data sets
     for k in range(n_all):
         case = gen_case(rng, tier)
-        check_calendar(case["time"], problems_all, res)
+        check_calendar(case["time"], problems_all, res, case["time_kind"])
         m = make_metric(case)
         out, probs = run_real(case, m)
         desc = describe(case)
@@ -694,7 +756,7 @@ def run(tier, res, force_search=False):
     big_kinds = ["time", "grid"] if tier == "quick" else ["time", "grid", "time", "grid", "time", "grid"]
     for kind in big_kinds:
         case = gen_big_case(rng.randint(0, 10**9), kind)
-        check_calendar(case["time"], problems_all, res)
+        check_calendar(case["time"], problems_all, res, case["time_kind"])
         out, probs = run_real(case, make_metric(case))
         desc = describe(case)
         size = case["T"] * case["I"] * case["J"]
@@ -710,12 +772,13 @@ def run(tier, res, force_search=False):
     # ---- the calendar on its own: season boundaries, leap days, century years, datetime64 axes
     for y in [1900, 2000, 2100, rng.randint(1901, 2099), 4 * rng.randint(480, 520)]:
         days = [datetime.date(y, 1, 1) + datetime.timedelta(days=k) for k in range(366 if (y % 4 == 0 and (y % 100 != 0 or y % 400 == 0)) else 365)]
-        check_calendar(np.array(days, dtype=object), problems_all, res)
-        check_calendar(np.array(days, dtype="datetime64[D]"), problems_all, res)
+        for tk in ("date", "datetime", "M8D", "M8h", "M8s", "M8ns", "plain"):
+            check_calendar(np.array(days, dtype=object), problems_all, res, tk)
     edge = [datetime.date(y, mth, d) for y in (1900, 1999, 2000, 2024, 2100) for mth, d in
             [(2, 28), (3, 1), (5, 31), (6, 1), (8, 31), (9, 1), (11, 30), (12, 1), (12, 31), (1, 1)]] + [datetime.date(2000, 2, 29), datetime.date(2024, 2, 29)]
     rng.shuffle(edge)
-    check_calendar(np.array(edge, dtype=object), problems_all, res)
+    for tk in ("date", "datetime", "M8D", "M8h", "M8s", "M8ns", "plain"):
+        check_calendar(np.array(edge, dtype=object), problems_all, res, tk)
 
     # ---- stateful sequences: ONE metric object and the SAME array objects across calls; between calls the buffer is
     #      refilled / rescaled in place or the metric's attributes are reassigned; every call is judged against the
@@ -756,12 +819,14 @@ def run(tier, res, force_search=False):
                     m.threshold_type = case["ty"]
                 else:  # same time array object, new dates written into it (only the groups matter)
                     shift = rng.randint(1, 400)
-                    case["time"][...] = np.array([as_date(t) + datetime.timedelta(days=shift) for t in case["time"]], dtype=object)
-                    keys_real, codes = groups_of(case["time"], case["scope"])
+                    moved = np.array([as_date(t) + datetime.timedelta(days=shift) for t in case["time"]], dtype=object)
+                    keys_real, codes = groups_of(moved, case["scope"])
                     if case["scope"] != "overall" and not all(kk in case["v0"] and (case["v1"] is None or kk in case["v1"]) for kk in keys_real):
-                        case["time"][...] = np.array([as_date(t) - datetime.timedelta(days=shift) for t in case["time"]], dtype=object)
                         action = "none"
                     else:
+                        case["time"][...] = moved
+                        if case["time_lib"] is not case["time"]:
+                            case["time_lib"][...] = probes.present(moved, case["time_kind"])
                         case["keys_real"], case["codes"] = keys_real, codes
                 history.append(action)
             out, probs = run_real(case, m)
@@ -778,10 +843,43 @@ def run(tier, res, force_search=False):
         res.count(("sequence", tuple(history), case["ty"], case["scope"], case["loc"]), True)
     res.extra["stateful_sequences"] = n_seq
 
+    # ---- non-finite values (NaN / +-inf as missing-value markers) at time steps that do NOT meet the condition: the
+    #      amounts are over the instances only, so such a value must not influence filter / yearly amount / intensity
+    #      (oracle on the real code only: the rational model has no NaN; the percentage's total runs over all steps and is
+    #      therefore judged on finite series only)
+    n_nf = 40 if tier == "quick" else 300
+    for k in range(n_nf):
+        case = gen_case(rng, tier)
+        while case["expect_error"] or case["T"] > 420:
+            case = gen_case(rng, tier)
+        nn = case["T"] * case["I"] * case["J"]
+        pos = rng.sample(range(nn), min(nn, rng.randint(1, max(1, nn // 8))))
+        vals = list(case["vals"])
+        for q_ in pos:
+            vals[q_] = rng.choice([float("nan"), float("nan"), float("inf"), float("-inf")])
+        case["vals"] = vals
+        refi = ref_instances(case).ravel()
+        for q_ in pos:  # an infinite value that meets the condition is an ordinary instance; only non-instances are wanted here
+            if refi[q_] == 1:
+                vals[q_] = float("nan")
+        for q_ in pos:
+            case["x"].flat[q_] = vals[q_]
+        case["nonfinite"] = {"positions": sorted(pos)[:20], "count": len(pos)}
+        check_calendar(case["time"], problems_all, res, case["time_kind"])
+        out, probs = run_real(case, make_metric(case))
+        desc = describe(case)
+        size = nn
+        for kd, p in probs:
+            problems_all.append((kd, p, desc, size))
+        for kd, b in oracle(case, out):
+            problems_all.append((kd, b + " (data set with NaN/inf at time steps that do not meet the condition)", desc, size))
+        res.count(("nonfinite", case["ty"], case["scope"], case["loc"], case["I"], case["J"]), True)
+    res.extra["nonfinite_cases"] = n_nf
+
     # ---- quantile-defined metrics
     for k in range(n_q):
         qc = gen_qcase(rng, tier)
-        check_calendar(qc["time"], problems_all, res)
+        check_calendar(qc["time"], problems_all, res, qc["time_kind"])
         line, exp, probs = run_qcase(qc, res)
         for kind, p in probs:
             problems_all.append((kind, p, describe_q(qc), qc["T"] * qc["I"] * qc["J"]))
@@ -875,7 +973,8 @@ def replay(data):
         time = np.array([datetime.date.fromisoformat(t) for t in fi["time"]], dtype=object)
         keys_real, codes = groups_of(time, fi["scope"])
         q0, q1 = Fraction(fi["q"][0]), Fraction(fi["q"][1])
-        qc = dict(I=fi["I"], J=fi["J"], T=fi["T"], time=time, vals=vals, ty=fi["ty"], loc=fi["loc"], scope=fi["scope"], q0=q0, q1=q1,
+        qc = dict(I=fi["I"], J=fi["J"], T=fi["T"], time=time, time_kind=fi.get("time_kind", "date"),
+                  time_lib=probes.present(time, fi.get("time_kind", "date")), vals=vals, ty=fi["ty"], loc=fi["loc"], scope=fi["scope"], q0=q0, q1=q1,
                   x=np.array([float(v) for v in vals]).reshape(fi["T"], fi["I"], fi["J"]), keys_real=keys_real, codes=codes,
                   dyadic=q0.denominator <= 64 and q1.denominator <= 64, tkind=fi["tkind"], order=fi["order"])
         _, _, probs = run_qcase(qc, C.Result(PROP, "replay"))
@@ -886,7 +985,9 @@ def replay(data):
         return 1 if probs else 0
     if fi and fi.get("what") == "time_groups":
         probs = []
-        check_calendar(np.array([datetime.date.fromisoformat(fi["date"])], dtype=object), probs, C.Result(PROP, "replay"))
+        # the encodings stamp by position (datetime: every second entry at 12:30), so keep the recorded position
+        pad = [datetime.date.fromisoformat(fi["date"])] * (fi.get("position", 0) + 1)
+        check_calendar(np.array(pad, dtype=object), probs, C.Result(PROP, "replay"), fi.get("encoding", "date"))
         for _, b, _, _ in probs:
             print("  still failing:", b)
         if not probs:
@@ -905,7 +1006,7 @@ def replay(data):
         print("replay: the recorded case carries no explicit data (large case); re-run ./check C19 with the recorded seed")
         return 2
     I, J, T = fi["I"], fi["J"], fi["T"]
-    vals = C.parse_list(fi["data"], Fraction)
+    vals = [float(t) if t in ("nan", "inf", "-inf") else Fraction(t) for t in fi["data"].split(",")]
     time = np.array([datetime.date.fromisoformat(t) for t in fi["time"]], dtype=object)
     scope, loc = fi["scope"], fi["loc"]
     keys_real, codes = groups_of(time, scope)
@@ -927,7 +1028,8 @@ def replay(data):
         return d
 
     parts = fi["threshold_value"].split(" , ")
-    case = dict(I=I, J=J, T=T, time=time, vals=vals, x=np.array([float(v) for v in vals]).reshape(T, I, J), ty=fi["ty"], loc=loc,
+    case = dict(I=I, J=J, T=T, time=time, time_kind=fi.get("time_kind", "date"), time_lib=probes.present(time, fi.get("time_kind", "date")),
+                vals=vals, x=np.array([float(v) for v in vals]).reshape(T, I, J), ty=fi["ty"], loc=loc,
                 scope=scope, v0=dec(parts[0]), v1=dec(parts[1]) if len(parts) > 1 else None, codes=codes, keys_real=keys_real,
                 code_of=(lambda k: SEASON_CODE[k]) if scope == "season" else (lambda k: int(k)), time_none=fi["time_none"],
                 expect_error=fi["expect_error"], minlen=fi["minlen"], tkind=fi["tkind"], order=fi["order"], style=fi["style"])
